@@ -175,8 +175,7 @@ def affF (lam : Rat) (t : List Rat) (f : Fld) : Fld := { f with mesh := affMesh 
 /-! ## spec of `Field.diff` at one cell (what `C04.diff` stores, see `Lemmas/C19Diff`) -/
 
 /-- is axis `ax` a periodic direction (as `Field.diff` decides it) -/
-def periodic (f : Fld) (ax : Nat) : Bool :=
-  f.mesh.bc.toList.any fun ch => String.singleton ch == f.mesh.region.dims.getD ax ""
+def periodic (f : Fld) (ax : Nat) : Bool := C04.periodicBc f.mesh.bc (f.mesh.region.dims.getD ax "")
 
 /-- component `c` at cell `i` of the `order`-th derivative of `f` along axis `ax`: the line
 through `i`, differentiated as `Field.diff` does (C04), read at `i`'s position -/
